@@ -23,8 +23,8 @@ check("C04",
 check("C01",
   "explicit-state exploration of the implementation: chain positions x adversarial edit catalogue x placements x four gates, judged by a reference ledger",
   "model_checking",
-  "At four chain positions reached through the real producer (fresh, after a reorganisation, window wrapped with and without a fee level) every edit of a ~75-entry catalogue (forged/zero/wrong-key signature, a foreign / non-existent / inflated input at every position of two- and three-input lists mixed with the signer's own valued and zero-amount inputs, non-existent/inflated/spent/replayed/expired/duplicated input, same input in two transactions of a hand-assembled block, Bound retag, outputs exceeding inputs incl. 64-bit wrap, theft and mint under every privileged type, look-up dependent edits under every user-signable type) is offered to the pool, to VerificationThread::verify_tx, and inside attacker-produced blocks as tip extension (two placements) and as completion of a winning side chain; accepted implies authorised per the reference ledger, and every unedited twin / spent-only-on-the-other-fork control must be accepted.",
-  "Reference ledger = set of output coordinates replayed from the harness's block bytes; attacker owns its key and the creator key of its blocks; window-edge inputs (created exactly g blocks earlier) are don't-cares.",
+  "At four chain positions reached through the real producer (fresh, after a reorganisation, window wrapped with and without a fee level) every edit of a ~75-entry catalogue (forged/zero/wrong-key signature, a foreign / non-existent / inflated input at every position of two- and three-input lists mixed with the signer's own valued and zero-amount inputs, non-existent/inflated/spent/replayed/expired/duplicated input, same input in two transactions of a hand-assembled block, Bound retag, outputs exceeding inputs incl. 64-bit wrap, theft and mint under every privileged type, look-up dependent edits under every user-signable type) is offered to the pool, to VerificationThread::verify_tx, and inside attacker-produced blocks as tip extension (two placements) and as completion of a winning side chain; accepted implies authorised per the reference ledger, and every unedited twin / spent-only-on-the-other-fork control must be accepted. Window-edge sweep: at every height of the two wrapped chains every unspent output of every key with age up to g+3 is spent by its owner through all four gates; ages <= g are controls (must be accepted), ages > g must be refused (age g+1 is the block the next block rebroadcasts).",
+  "Reference ledger = set of output coordinates replayed from the harness's block bytes; attacker owns its key and the creator key of its blocks; the window edge is exact (created at h-g: inside; at h-g-1: outside).",
   "DESIGN.md §3 C01")
 check("C05",
   "explicit-state exploration of the implementation: two-branch forks x every golden-ticket placement x burn-fee profile x every interleaving, three monitors per delivery",
@@ -49,8 +49,8 @@ check("C07",
 check("C06",
   "bounded-exhaustive enumeration of single edits of real blocks against the implementation, accepted variants grouped by hash",
   "exploration",
-  "For three base blocks built by the real producer (golden ticket + routed fee-paying + plain + payload transactions; a post-wrap block with rebroadcast and fee transactions; a fee-less block with a routed transaction) every single edit that keeps the bytes decodable: remove / duplicate / replace / swap every pair / append transaction; one change in every field class of every transaction (signature, timestamp, type, replacement count, input amount/key/coordinates, output amount/key/slip type, payload, routing path strip/truncate/hop-to/hop-sig/append-hop); one bit in each of the 32 header fields; zero and foreign merkle root; creator swapped or block re-signed by another key; transaction count field. Whole-list edits (remove all, keep first / last only, reverse) and the genesis block as a fourth base. Each variant goes bytes -> decode -> VerificationThread::verify_block (original's advertised id/hash), Blockchain::add_block on a fresh node at the parent, and Blockchain::add_block as the first block of an empty node. All accepted variants with equal hash must carry byte-identical ordered transaction lists and a creator signature that verifies.",
-  "Single edits only (no edit pairs); three base blocks. Variants with a different hash are different blocks and not judged here.",
+  "For three base blocks built by the real producer (golden ticket + routed fee-paying + plain + payload transactions; a post-wrap block with rebroadcast and fee transactions; a fee-less block with a routed transaction) every single edit that keeps the bytes decodable: remove / duplicate / replace / swap every pair / append transaction; one change in every field class of every transaction (signature, timestamp, type, replacement count, input amount/key/coordinates, output amount/key/slip type, payload, routing path strip/truncate/hop-to/hop-sig/append-hop); one bit in each of the 32 header fields; zero and foreign merkle root; creator swapped or block re-signed by another key; transaction count field. Whole-list edits (remove all, keep first / last only, reverse), insertion of a crafted zero-value transaction (SPV / Normal / Bound type x replacement count 0..2) at every list position, and the genesis block as a fourth base. Each variant goes bytes -> decode -> VerificationThread::verify_block (original's advertised id/hash), Blockchain::add_block on a fresh node at the parent, and Blockchain::add_block as the first block of an empty node. All accepted variants with equal hash must carry byte-identical ordered transaction lists and a creator signature that verifies.",
+  "Single edits only (no edit pairs); four base blocks. Variants with a different hash are different blocks and not judged here.",
   "DESIGN.md §3 C06")
 
 check("C09",
@@ -69,14 +69,14 @@ check("C10",
 check("C18",
   "exhaustive enumeration of key-list subsets (placeholder patterns) on real blocks through the route's pipeline",
   "exploration",
-  "Blocks with n = 0..8 (quick) / 0..11 (thorough) payments to distinct keys built by the real producer, with and without golden ticket and fee transaction; for every subset of the payee keys (every pattern of adjacent placeholders, 2^n per block) plus key lists that match only inputs or nothing: disk bytes -> decode -> generate -> generate_lite_block -> serialize -> decode -> generate. Checked: all 31 header fields, id, hash and signature equal the full block's; every transaction paying to or spending from a listed key is carried byte-identical (before and after the wire); the decoded lite block regenerates the same hash; MerkleTree::generate over the lite block's transactions reproduces the header's merkle root before and after the wire.",
+  "Blocks with n = 0..8 (quick) / 0..11 (thorough) payments to distinct keys built by the real producer, with and without golden ticket and fee transaction; for every subset of the payee keys (every pattern of adjacent placeholders, 2^n per block) plus key lists that match only inputs or nothing: disk bytes -> decode -> generate -> generate_lite_block -> serialize -> decode -> generate. A further base block has every header field perturbed to a distinct non-default value (so a projection that drops or defaults any field shows). Checked: all 31 header fields, id, hash and signature equal the full block's; every transaction paying to or spending from a listed key is carried byte-identical (before and after the wire); the decoded lite block regenerates the same hash; MerkleTree::generate over the lite block's transactions reproduces the header's merkle root before and after the wire.",
   "Key lists are subsets of payee keys plus two special lists; one payer. The HTTP framing of the route (warp) is not exercised, its body is.",
   "DESIGN.md §3 C18")
 
 check("C13",
   "explicit-state exploration of the implementation: deviation-bounded producer histories across the window edge with a per-block rebroadcast monitor",
   "model_checking",
-  "Histories of 2g+5 blocks (g = 3, 4; 5 in thorough) at fee levels 0 and 6000 built with the real producer from a 9-symbol action alphabet (payment, payment with two outputs, dust output, spend of the oldest still-spendable output, NFT mint, empty), default script with 1 deviation everywhere and 2 deviations at g=3 (all g thorough), golden ticket every other block, and histories in which a competitor block arrives first at some height and loses to a two-block branch whose first block carries a payment (two blocks stored at the expiring height). Monitor on every accepted block at height h > g+1: its rebroadcast transactions are in bijection with the outputs of block h-g-1 that are unspent per the reference ledger and can pay the fee (same owner; amount = value x payout multiplier - size x parent's fee-per-byte, from the parent's header), NFT triples move as triples, too-small outputs are collected (total_fees_atr = rebroadcast fees + dust), nothing else is rebroadcast, and every expired original is refused by the pool afterwards.",
+  "Histories of 2g+5 blocks (g = 3, 4; 5 in thorough) at fee levels 0 and 6000 built with the real producer from a 9-symbol action alphabet (payment, payment with two outputs, dust output, spend of the oldest still-spendable output, NFT mint, empty), default script with 1 deviation everywhere and 2 deviations at g=3 (all g thorough), golden ticket every other block, and histories in which a competitor block arrives first at some height and loses to a two-block branch whose first block carries a payment (two blocks stored at the expiring height). Monitor on every accepted block at height h > g+1: its rebroadcast transactions are in bijection with the outputs of block h-g-1 that are unspent per the reference ledger and can pay the fee (same owner; amount = value x payout multiplier - size x parent's fee-per-byte, from the parent's header), NFT triples move as triples, too-small outputs are collected (total_fees_atr = rebroadcast fees + dust), nothing else is rebroadcast, every expired original is refused by the pool afterwards, and before each block is produced every still-unspent output of the block it is about to rebroadcast is refused by the pool (not spendable in the block that rebroadcasts it).",
   "Payout multiplier > 1 is unobservable on the pinned tree (blocks with a treasury payout never validate: C07 known finding). No forks inside these histories (C02/C03 trees cross the window edge with forks).",
   "DESIGN.md §3 C13")
 
@@ -111,7 +111,7 @@ check("C16",
 check("C17",
   "explicit-state breadth-first search over Dolev-Yao attacker actions on the real handshake handlers of two real nodes, symbolic renaming of challenges",
   "model_checking",
-  "Two real FullNodes (S accepts two connections, C dials S and accepts one) and an attacker who owns one connection to S and one to C and controls the wire between C and S: deliver or drop queued messages, replay any observed message to S or C (on either of their connections), send a challenge with any observed or a fresh value, send a response signed with its own key over any observed challenge with a compatible or incompatible version. All action sequences to depth 4 (quick) / 5 (thorough), under 2 / 4 seeds of the peer maps' iteration order (hook H4); challenges are random per run and named by order of observation in actions and digests, which also name the challenge each observed response signs. After every step, for every acceptance (status change or PeerHandshakeComplete event): the key is not the node's own, the response's signature verifies under that key over the challenge outstanding on that very connection, that (connection, challenge) was not accepted before, the version is compatible, a challenge was outstanding at all; no connected peer and no address-map entry changes because of a message on another connection unless that message is itself a valid authentication by the same key; no handler aborts.",
+  "Two real FullNodes (S accepts two connections, C dials S and accepts one) and an attacker who owns one connection to S and one to C and controls the wire between C and S: deliver or drop queued messages, replay any observed message to S or C (on either of their connections), send a challenge with any observed or a fresh value, send a response signed with its own key over any observed challenge with a compatible or incompatible version, tear down and re-dial the C-S connection (fresh peer index, fresh challenge). All action sequences to depth 4 (quick) / 5 (thorough), under 2 / 4 seeds of the peer maps' iteration order (hook H4); challenges are random per run and named by order of observation in actions and digests, which also name the challenge each observed response signs. After every step, for every acceptance (status change or PeerHandshakeComplete event): the key is not the node's own, the response's signature verifies under that key over the challenge outstanding on that very connection, that (connection, challenge) was not accepted before, the version is compatible, a challenge was outstanding at all and is one the harness saw issued on that connection; no connected peer and no address-map entry changes because of a message on another connection unless that message is itself a valid authentication by the same key; no handler aborts.",
   "Signatures are unforgeable; one attacker key. Pure relay of a genuine answer to a genuine challenge (no channel binding in the protocol) is not flagged.",
   "DESIGN.md §3 C17")
 
